@@ -1471,11 +1471,93 @@ def staged_inputs_rule(A: Analysis, col: Collector, rule: str):
 # --------------------------------------------------------------------------- #
 
 
+def _quantifier(node: ast.AST, over_attr: str) -> tuple[str, ast.AST] | None:
+    """(`any`|`all`, call) for the first any(...)/all(...) over a generator whose iterable is `<x>.<over_attr>`"""
+    for c in ast.walk(node):
+        if isinstance(c, ast.Call) and isinstance(c.func, ast.Name) and c.func.id in ("any", "all") and c.args and isinstance(c.args[0], (ast.GeneratorExp, ast.ListComp)):
+            it = c.args[0].generators[0].iter
+            if isinstance(it, ast.Attribute) and it.attr == over_attr:
+                return c.func.id, c
+    return None
+
+
+def rule_shape(A: Analysis, col: Collector, rule: str):
+    """the quantifier structure of the rule evaluation, as far as it is visible in the shape of the code:
+    a requirement set holds iff ALL its requirements hold; a field's requirements are violated iff NOT ANY
+    of its requirement sets holds; an exclusive group is violated iff MORE THAN ONE member is set, or none
+    is set and the group does not allow none; every violation found is returned.  An unrecognised shape is
+    an analysis error (the anchor moved), never a violation."""
+    rs = A.func("pydra.compose.base.field.RequirementSet.satisfied")
+    col.scope(rs.qualname)
+    q = _quantifier(rs.node, "requirements")
+    if q is None:
+        raise AnalysisError("C31: RequirementSet.satisfied is no longer an any()/all() over self.requirements")
+    rets = [n for n in walk_own(rs.node) if isinstance(n, ast.Return)]
+    if q[0] == "all" and len(rets) == 1 and rets[0].value is q[1] and not q[1].args[0].generators[0].ifs:
+        col.ok(rule, "RequirementSet.satisfied = all(req.satisfied(inputs) for req in self.requirements)", A.loc(q[1]))
+    else:
+        col.fail(rule, rs.qualname, f"requirement-set-quantifier:{q[0]}", f"a requirement set is evaluated as `{norm(rets[0].value if rets else q[1], 70)}`: the property requires ALL its fields to be set (a set with one satisfied member would wrongly allow the task to run)", A.loc(q[1]))
+    rv = A.func("pydra.compose.base.task.Task._rule_violations")
+    col.scope(rv.qualname)
+    q2 = _quantifier(rv.node, "requires")
+    if q2 is None:
+        raise AnalysisError("C31: Task._rule_violations no longer quantifies over field.requires with any()/all()")
+    par = getattr(q2[1], "_parent", None)
+    negated = isinstance(par, ast.UnaryOp) and isinstance(par.op, ast.Not)
+    inner_sat = any(isinstance(c, ast.Call) and isinstance(c.func, ast.Attribute) and c.func.attr == "satisfied" for c in ast.walk(q2[1].args[0].elt))
+    if q2[0] == "any" and negated and inner_sat and not q2[1].args[0].generators[0].ifs:
+        col.ok(rule, "a set field's requirements are violated iff `not any(rs.satisfied(self) for rs in field.requires)`", A.loc(q2[1]))
+    else:
+        col.fail(rule, rv.qualname, f"requires-quantifier:{'not-' if negated else ''}{q2[0]}", f"the requirements of a field are tested with `{norm(par if negated else q2[1], 70)}`: the property asks for AT LEAST ONE satisfied requirement set", A.loc(q2[1]))
+    # exclusive groups
+    xloops = [l for l in walk_own(rv.node) if isinstance(l, ast.For) and isinstance(l.iter, ast.Attribute) and l.iter.attr == "_xor"]
+    A.anchor("loop over self._xor in Task._rule_violations", xloops)
+    appended_lists = set()
+    for l in xloops:
+        tests = [n for n in ast.walk(l) if isinstance(n, ast.If)]
+        many = none = None
+        for t in tests:
+            for cmp_ in [k for k in ast.walk(t.test) if isinstance(k, ast.Compare)]:
+                if isinstance(cmp_.left, ast.Call) and isinstance(cmp_.left.func, ast.Name) and cmp_.left.func.id == "len" and len(cmp_.ops) == 1 and isinstance(cmp_.comparators[0], ast.Constant):
+                    many = (t, cmp_)
+            if isinstance(t.test, ast.BoolOp) and isinstance(t.test.op, ast.And) and any(isinstance(v, ast.UnaryOp) and isinstance(v.op, ast.Not) for v in t.test.values) and any(isinstance(v, ast.Compare) and isinstance(v.ops[0], ast.NotIn) and isinstance(v.left, ast.Constant) and v.left.value is None for v in t.test.values):
+                none = t
+        if many is None:
+            raise AnalysisError("C31: the `more than one member set` test of the xor loop was not recognised")
+        t, cmp_ = many
+        op, k = cmp_.ops[0], cmp_.comparators[0].value
+        if (isinstance(op, ast.Gt) and k == 1) or (isinstance(op, ast.GtE) and k == 2):
+            col.ok(rule, f"an exclusive group is violated when `{norm(cmp_)}` (more than one member set)", A.loc(cmp_))
+        else:
+            col.fail(rule, rv.qualname, f"xor-threshold:{type(op).__name__}{k}", f"an exclusive group is reported only when `{norm(cmp_)}`: the property allows AT MOST ONE member of a group to be set", A.loc(cmp_))
+        if none is not None and len(none.test.values) == 2:
+            col.ok(rule, f"a group with no member set is violated unless it allows none (`{norm(none.test)}`)", A.loc(none))
+        else:
+            col.fail(rule, rv.qualname, "xor-none-set-not-reported", "the `exactly one unless the group allows none` case is no longer reported as `not <set members> and None not in <group>`", A.loc(l))
+    # every violation found is returned: one return, of the list every append targets
+    rets = [n for n in walk_own(rv.node) if isinstance(n, ast.Return)]
+    apps = [c for c in A.calls(rv) if isinstance(c.func, ast.Attribute) and c.func.attr == "append" and isinstance(c.func.value, ast.Name)]
+    A.anchor("errors.append(...) in Task._rule_violations", apps)
+    tgt = {c.func.value.id for c in apps}
+    if len(rets) == 1 and isinstance(rets[0].value, ast.Name) and tgt == {rets[0].value.id} and len(apps) >= 4:
+        col.ok(rule, f"all {len(apps)} violation messages are appended to the one list that is returned", A.loc(rets[0]))
+    else:
+        col.fail(rule, rv.qualname, "violations-not-all-returned", f"violations are appended to {sorted(tgt)} ({len(apps)} sites) but the function returns `{norm(rets[0].value) if rets else None}` ({len(rets)} return statements)", A.loc(rv.node))
+    # nothing skips the checks of a field but a lazy value
+    conts = [n for n in walk_own(rv.node) if isinstance(n, (ast.Continue, ast.Break))]
+    for c_ in conts:
+        guard = next((p_ for p_ in parents(c_) if isinstance(p_, ast.If)), None)
+        if isinstance(c_, ast.Continue) and guard is not None and any(q_.endswith("is_lazy") for k in ast.walk(guard.test) if isinstance(k, ast.Call) for q_ in A.callee_names(k, rv)) and not isinstance(guard.test, ast.BoolOp):
+            col.ok(rule, "fields holding a lazy value are skipped (checked again when the value is resolved)", A.loc(c_))
+        else:
+            col.fail(rule, rv.qualname, f"rule-check-skipped:{shape(guard.test, 50) if guard is not None else 'unconditional'}", f"`{type(c_).__name__.lower()}` under `{norm(guard.test, 60) if guard is not None else 'no condition'}` skips the rule checks of a field whose value is known", A.loc(c_))
+
+
 @prop(
     "C31",
     technique="must-pass-through (dominance over CFGs) + who-may-call over the resolved call graph",
     decides="_check_rules() is passed on every normally completing path of Job.__init__ (so no Job exists for a task violating its rules); Submitter.__call__ checks the rules before constructing the job; Workflow.construct checks every node's rules; ShellTask._command_args re-checks before building argv; _check_rules raises when _rule_violations() is non-empty; task bodies (<task>._run/_run_async) are called only from the run functions.",
-    not_decided="exactness of Task._rule_violations (requirement-set and xor arithmetic over runtime values).",
+    not_decided="value-level exactness of Task._rule_violations (which values count as set); decided structurally: the quantifier shape all/not-any, the xor threshold, the none-set case, that every violation is returned and that only lazy values skip the checks.",
     level_note="Trusted: class-hierarchy call resolution of pydra_sa.",
 )
 def check_c31(A: Analysis, col: Collector):
@@ -1535,6 +1617,7 @@ def check_c31(A: Analysis, col: Collector):
         col.ok("C31.raise", "Task._check_rules runs attrs.validate (allowed_values / field validators)", A.loc(cr.node))
     else:
         col.fail("C31.raise", cr.qualname, "no-attrs-validate", "Task._check_rules no longer runs the attrs validators", A.loc(cr.node))
+    rule_shape(A, col, "C31.shape")
     # who may call the task body
     run_qn = {R.fn.qualname for R in run_functions(A)}
     n = 0
